@@ -37,7 +37,7 @@ type planSeg struct {
 	merges int    // merge depth
 }
 
-var planClasses = []string{"tall-edge", "same-nodrops", "same-drops", "different", "empty-inputs", "nothing-survives", "chain", "tall", "random", "single-input", "updates"}
+var planClasses = []string{"tall-edge", "xwide", "same-nodrops", "same-drops", "different", "empty-inputs", "nothing-survives", "chain", "tall", "random", "single-input", "updates"}
 
 type mergeDesc struct {
 	Class     string   `json:"class"`
@@ -134,6 +134,9 @@ func mergeWorkload(c *Ctx, slice int) {
 		if class == "tall-edge" && i%(len(planClasses)*2) != 0 {
 			class = "different"
 		}
+		if class == "xwide" && i%(len(planClasses)*3) != 1 {
+			class = "chain"
+		}
 		runMergePlan(c, i, rng, class, slice)
 	}
 }
@@ -178,18 +181,25 @@ func runMergePlan(c *Ctx, i int, rng *rand.Rand, class string, slice int) {
 				o.Names = nil // different field lists: re-encode path
 			}
 			o.Syn, o.Vec = false, slice == sliceVec // >= 1000 vectors: the merged index is a clustered one
+		case "xwide":
+			cl = "xwide"
+			if l > 1 {
+				cl = "small"
+			}
 		case "tall-edge":
 			// cardinalities next to a multiple of 1024, a term missing from the
 			// earlier (small, heavily deleted) input: writer and reader must
 			// agree on the chunk size computed from the surviving cardinality
-			o.Names, o.Syn, o.Vec = sharedNames[:1], false, false
+			o.Names, o.Syn, o.Vec = sharedNames[:2], false, false
 			if l == nLeaves-1 {
 				cl = "tall"
 				o.Docs = []int{1024, 2048}[rng.Intn(2)] + rng.Intn(48) - 8
-				o.Terms, o.Always, o.HasAlways = []string{"t", "b", "k"}, "t", true
+				// the second field's dictionary starts with the empty term, after a
+				// field whose last term has ~1024 hits
+				o.Terms, o.Always, o.HasAlways = []string{"t", "b", "k", ""}, "t", true
 			} else {
 				cl = "mid"
-				o.Terms = []string{"a", "b", "k"}
+				o.Terms = []string{"a", "b", "k", ""}
 			}
 		case "updates":
 			o.IDPrefix = "u-" // same ids in every segment, older copies deleted below
